@@ -25,7 +25,7 @@ def run_case(params, prefix):
     else:
         counts, fexec = _recov.summarize(res)
         if res.get("raised"):
-            fails.append((base + "|raised", f"run() raised {res['raised']}; failures {run_.failure_log}; executions {run_.exec_log}"))
+            fails.append((_recov.raised_key(params, run_, base), f"run() raised {res['raised']}; failures {run_.failure_log}; executions {run_.exec_log}"))
         elif res.get("ret_content") != res["expected"]:
             fails.append((base + "|outputs", f"outputs {res.get('ret_content')} differ from the failure-free run {res['expected']}; "
                                              f"failures {run_.failure_log}; executions {run_.exec_log}"))
